@@ -74,6 +74,26 @@ META = {
     "C19-sleep-loop-exits-on-eintr-value": ("C19", "sleep loop continues only while result == -1; needs clock_nanosleep returning EINTR"),
     "C20-close-retried-on-eintr": ("C20", "p_sys_close retries close() on EINTR on every UNIX; needs close interrupted by a signal"),
     "C20-shm-name-left-on-failed-create": ("C20", "shm_created set only after mmap succeeded; needs ftruncate/mmap to fail after the exclusive create (size 0 or huge)"),
+    # ---- round 4 (again a different function / mechanism / clause than the three earlier seeds of the property) ----
+    "C01-c11-unlock-plain-store": ("C01", "C11 spinlock unlock becomes a plain volatile store instead of a release store; needs a weakly ordered CPU or compiler motion of critical-section stores past the unlock"),
+    "C02-general-reader-unlock-reads-before-mutex": ("C02", "general rwlock model: reader_unlock reads the reader count before taking the internal mutex; needs a second reader lock/unlock between the read and the mutex"),
+    "C03-mutex-locked-hint-stale-after-wait": ("C03", "PMutex gains a `locked` hint that trylock trusts; pthread_cond_wait releases the native mutex behind its back; needs a trylock by another thread while a waiter is blocked"),
+    "C04-sync-fences-moved-to-other-side": ("C04", "sync atomic model: get = load;fence and set = fence;store; needs a store-buffering (Dekker) pattern of set followed by get"),
+    "C05-shutdown-keeps-tls-slot": ("C05", "p_uthread_shutdown no longer clears the library TLS slot after dropping the thread's handle; needs the thread that called shutdown to exit through pthread afterwards"),
+    "C06-key-from-name-prefix": ("C06", "semaphore name copied with strncpy bounded by the suffix length before hashing; needs two names sharing their first 13 characters"),
+    "C07-created-flag-on-any-open-error": ("C07", "shm_created set when the exclusive shm_open fails for any reason but EEXIST; needs shm_open to fail with EMFILE/ENFILE/ENOMEM on an existing name"),
+    "C08-wrapped-read-copies-requested-length": ("C08", "second part of a wrapped read copies len - first_part instead of to_copy - first_part; needs a wrapped read asking for more than is stored"),
+    "C09-connect-checks-error-before-wait": ("C09", "blocking connect reads SO_ERROR before waiting for writability; needs a connection attempt that fails after connect() returned EINPROGRESS"),
+    "C10-sys-close-retries-eintr": ("C10", "p_sys_close retries close() on EINTR on every UNIX; needs close() interrupted by a signal while another thread obtains the same descriptor number"),
+    "C11-closed-flag-set-after-delivery": ("C11", "closed = TRUE moved to the end of get_string/get_digest; needs the hex-string allocation to fail once, then another read"),
+    "C12-rb-root-removal-leaves-red-root": ("C12", "RB remove does not repaint the replacing child when the removed node is the root; needs a two-node tree, root removal, then an insert below the red root"),
+    "C14-avl-swap-takes-predecessor-value": ("C14", "AVL two-children removal hands the predecessor's value to the notifier; needs an AVL tree with a value notifier and a two-children removal"),
+    "C15-remove-loses-prev-node": ("C15", "insert appends at the chain tail and remove's unlink loop no longer advances prev_node; needs removal of a key that is not the oldest of its bucket"),
+    "C16-empty-quotes-checked-before-trim": ("C16", "empty-quotes test made before the value is trimmed; needs `key = \"\" ; comment` with a blank between the closing quote and the comment"),
+    "C17-getaddrinfo-guard-inverted": ("C17", "the guard that undefines PLIBSYS_HAS_GETADDRINFO lost its `!`: the getaddrinfo branch is compiled out; needs a scoped IPv6 string such as fe80::1%lo"),
+    "C18-hash-table-new-unwinds-with-free": ("C18", "p_hash_table_new stores size before the bucket allocation and unwinds with p_hash_table_free; needs the second allocation of the call to fail"),
+    "C19-socket-errno-include-dropped": ("C19", "#include <errno.h> removed from psocket.c: every #ifdef EINTR retry is compiled out; needs a handled signal during connect/accept/recv/send/poll"),
+    "C20-dir-handle-stored-after-path-copies": ("C20", "p_dir_new stores the DIR handle only after the path copies succeeded; needs the 2nd or 3rd allocation of the call to fail"),
 }
 
 
